@@ -44,7 +44,8 @@ _CLS = ["variant/plain", "variant/tree", "variant/mercurius", "invalid_index", "
         "growth512", "stale_lookup", "lookup_dup", "lookup_zero", "lookup_absent", "rm_sorted", "rm_unsorted",
         "rm_by_hash", "rm_last_particle", "n_active_dec", "tree_flag", "tree_update_removed", "tree_sorted_refused",
         "dcrit_shift", "dcrit_short", "rm_all"]
-CLASSES = ["c_api/" + c for c in _CLS] + ["py_api/" + c for c in _CLS] + ["py_api/named"]
+CLASSES = ["c_api/" + c for c in _CLS] + ["py_api/" + c for c in _CLS] + ["py_api/named", "py_api/held_access",
+                                                                          "py_api/storage_full", "py_api/held_after_realloc"]
 
 POOL = [1, 2, 0xFFFFFFFF, 0x80000000, 0x7FFFFFFF, 12345, 0xDEADBEEF, 3]
 NAMES = ["star", "planet1", "planet2", "a", "", "earth-moon barycentre", "x" * 37, "Zz9_"]
@@ -153,6 +154,7 @@ def op_strategy(named, py):
                           st.sampled_from([None, 1, 2, -1, 3])).map(lambda t: ["py_slice", t[0], t[1], t[2]])),
             (2, st.just(["py_iter"])),
             (4, st.tuples(st.integers(0, 255), hs).map(lambda t: ["py_set", t[0], t[1][0], t[1][1]])),
+            (8, st.just(["py_held"])),
         ]
     # weighted choice (st.one_of drops repeated strategies, so the weights go through an index)
     idx = []
@@ -174,10 +176,28 @@ def history_strategy(named, py, variants=("plain", "tree", "mercurius")):
         if ra:
             ops.insert(pos % (len(ops) + 1), ["rm_all"])
         return pre + ops
+    prefixes = [first, grow, st.just([])]
+    weights = [0, 0, 0, 0, 0, 1, 2]
+    if py:
+        # skeletons for a held container: fill the storage exactly (next add reallocates), use the container, grow by
+        # a few, come back to the same count without using it, use it again; and remove-all + re-add the same count
+        def cross(t):
+            j, (hk, hv), n, rm, mid = t
+            cnt = add_count(n)
+            out = [["to_boundary", j, hk % 3, hv], ["py_held"], ["add", hk % 3, hv, n]]
+            out += [["rm_i", r[0], r[1], r[2]] for r in rm[:cnt]] + [["rm_i", 1, 0, 1]] * max(0, cnt - len(rm))
+            return out + mid + [["py_held"]]
+        rm1 = st.tuples(st.integers(0, 1), st.integers(0, 5), st.integers(0, 1))
+        skel_cross = st.tuples(st.sampled_from([0, 0, 0, 1, 1, 2]), hs, st.integers(0, 3), st.lists(rm1, min_size=0, max_size=4),
+                               st.sampled_from([[], [], [["aux"]], [["look_all"]]])).map(cross)
+        skel_rmall = st.tuples(hs, st.sampled_from([0, 1, 2, 3, 130, 200])).map(
+            lambda t: [["add", t[0][0] % 3, t[0][1], t[1]], ["py_held"], ["rm_all"], ["add", t[0][0] % 3, t[0][1] + 1, t[1]], ["py_held"]])
+        prefixes += [skel_cross, skel_rmall]
+        weights += [3, 3, 4]
     return st.fixed_dictionaries({
         "variant": st.sampled_from(list(variants)),
         "flags": st.integers(0, 1),
-        "ops": st.tuples(st.sampled_from([0, 0, 0, 0, 0, 1, 2]).flatmap(lambda i: [first, grow, st.just([])][i]), body, st.sampled_from([0, 0, 0, 1]),
+        "ops": st.tuples(st.sampled_from(weights).flatmap(lambda i: prefixes[i]), body, st.sampled_from([0, 0, 0, 1]),
                          st.integers(0, 40)).map(splice),
     })
 
@@ -321,6 +341,12 @@ class Runner:
             sim.dt = 1e-2
         self.sim = sim
         self.cls.add("variant/" + self.variant)
+        # long-lived container objects (a user keeps `ps = sim.particles`): A is used after every operation, B only at
+        # the generated "py_held" points, so that reallocations and count round trips happen between two uses of B
+        self.psA = sim.particles if front == "py" else None
+        self.psB = sim.particles if front == "py" else None
+        self.blockers = []
+        self.wt = 0
 
     # ----- helpers
     def fail(self, msg, **kw):
@@ -340,6 +366,20 @@ class Runner:
 
     def has(self, h):
         return any(e.hash == h for e in self.P)
+
+    def skip_null_table(self):
+        """Under `--sanitize` the library is built with UBSan's nonnull-attribute check and aborts on qsort(NULL, 0, ..)
+        when a hash is looked up before any lookup table was ever allocated (empty simulation, first lookup).  No
+        memory is touched; it is recorded as finding C14-qsort-null-empty-table and stepped over when that is open."""
+        if self.P:
+            self.table_alloc = True
+            return False
+        if getattr(self, "table_alloc", False) or os.environ.get("VERIF_VARIANT_OVERRIDE") != "asan":
+            return False
+        if self.ctx.finding_open("C14-qsort-null-empty-table"):
+            self.ctx.excluded("C14-qsort-null-empty-table")
+            return True
+        return False
 
     def verify(self, ordered, state=None):
         m, N, na, recs, dcrit = state or read_state(self.sim)
@@ -487,6 +527,8 @@ class Runner:
     def do_remove(self, index, h, hk, hv, ks):
         from ..oracles import sa_format
         from .. import rb
+        if h is not None and self.skip_null_table():
+            return
         st0 = read_state(self.sim)
         valid = self.has(h) if h is not None else 0 <= index < len(self.P)
         ok = self.fe_remove(index, h, hk, hv, ks)
@@ -563,6 +605,8 @@ class Runner:
 
     def do_lookup(self, hk, hv, h=None):
         h = sel_hash(hk, hv) if h is None else h
+        if self.skip_null_table():
+            return
         idx = self.fe_lookup(h, hk, hv)
         has = self.has(h)
         if has and idx is None:
@@ -640,6 +684,9 @@ class Runner:
                 self.do_aux()
             elif self.front == "py":
                 self.do_py(o)
+            if self.front == "py":
+                self.check_container(self.psA, "held container (used after every operation)", full=False)
+                self.check_container(sim.particles, "fresh sim.particles", full=False)
         sim = None
 
     def do_aux(self):
@@ -667,10 +714,83 @@ class Runner:
                 if len(dcrit) < N:
                     self.fail("after a step dcrit has %d entries for N=%d" % (len(dcrit), N))
 
+    def check_container(self, ps, label, full, state=None):
+        """All index-type accessors of one Particles object against the model, plus a write through it."""
+        sim = self.sim
+        n = len(self.P)
+        exp = [(e.hash, bits(e.rec["r"])) for e in self.P]
+        if len(ps) != n:
+            self.fail("%s: len() is %d, model has %d particles" % (label, len(ps), n))
+        if n == 0:
+            if list(ps) != []:
+                self.fail("%s: iteration yields particles for N=0" % label)
+            return
+        if full or n <= 48:
+            got = [(p.hash.value, bits(p.r)) for p in ps]
+            if got != exp:
+                bad = [i for i in range(min(len(got), n)) if got[i] != exp[i]]
+                self.fail("%s: iteration shows %d particles, %d differ from the model (first at index %s)"
+                          % (label, len(got), len(bad), bad[:1]))
+        idx = sorted({0, 1 % n, n // 2, n - 1, (self.opno * 7919) % n})
+        for i in idx:
+            for j in (i, i - n):
+                p = ps[j]
+                if (p.hash.value, bits(p.r)) != exp[i] or p.index != i:
+                    self.fail("%s: [%d] is (hash %d, r %r, index %d), model has (hash %d, tag %d) at index %d"
+                              % (label, j, p.hash.value, p.r, p.index, exp[i][0], self.P[i].tag, i))
+        a = (self.opno * 31) % n
+        sl = slice(a, min(n, a + 9), 1 + self.opno % 2)
+        if [(p.hash.value, bits(p.r)) for p in ps[sl]] != exp[sl]:
+            self.fail("%s: slice %r differs from the model" % (label, sl))
+        # write-through: a value assigned through the container must land in the simulation
+        self.wt += 1
+        i = (self.opno * 13 + self.wt) % n
+        v = 1000.0 * self.opno + self.wt + 0.25
+        ps[i].last_collision = v
+        back = sim.particles[i].last_collision
+        if bits(back) != bits(v):
+            self.fail("%s: [%d].last_collision = %r did not reach the simulation (fresh sim.particles[%d] reads %r)"
+                      % (label, i, v, i, back))
+        if full:
+            recs = read_state(sim)[3]
+            if bits(recs[i][11]) != bits(v):
+                self.fail("%s: [%d].last_collision = %r did not reach the serialised state (%r)" % (label, i, v, recs[i][11]))
+
     def do_py(self, o):
         ct, sim = self.ct, self.sim
         k = o[0]
         n = len(self.P)
+        if k == "py_held":
+            # heap blocks kept alive so that a later growth of the particle storage has to relocate it
+            if len(self.blockers) < 64:
+                for _ in range(8):
+                    self.blockers.append(ct.create_string_buffer(3000))
+            addr = ct.addressof(sim._particles.contents) if sim.N else 0
+            if getattr(self, "b_last", None) is not None and self.b_last[0] == sim.N and sim.N and self.b_last[1] != addr:
+                self.cls.add("held_after_realloc")   # same count as at the previous use, storage relocated in between
+            self.check_container(self.psB, "held container (used at 'py_held' points only)", full=True)
+            self.b_last = (sim.N, addr)
+            self.cls.add("held_access")
+            return
+        if k == "to_boundary":
+            # fill the storage exactly: the next add reallocates
+            target = 128 << (o[1] % 3)
+            while target < n:
+                target *= 2
+            if target - n > 0 and self.ntags + (target - n) < 2900:
+                hk, hv = o[2], o[3]
+                for j in range(target - n):
+                    tag = self.ntags
+                    self.ntags += 1
+                    h = sel_hash(hk, hv + j, tag)
+                    rec = make_particle(self.variant, tag)
+                    self.P.append(Entry(tag, h, rec))
+                    self.fe_add(rec, hk, hv + j, h)
+                self.mutated()
+                self.verify(True)
+            if len(self.P) == sim.N_allocated:
+                self.cls.add("storage_full")
+            return
         if k == "py_get":
             i = o[1]
             try:
